@@ -85,6 +85,7 @@ pub fn run_case(case: &[u8]) -> String {
             41 => crate::query::case_gamespy(&mut rd, 1),
             42 => crate::query::case_gamespy(&mut rd, 2),
             43 => crate::query::case_gamespy(&mut rd, 3),
+            50 => crate::query::case_game(&mut rd),
             30 => crate::idcheck::case_idcheck(&mut rd),
             31 => crate::idcheck::case_n2w(&mut rd),
             _ => Err(()),
